@@ -34,6 +34,7 @@ Cols(p, m) == [k \in 1..m |-> [j \in 1..(p + 1) |-> Val(p, k, j)]]
 ScalesAll == {NoneR, <<0, 1>>, <<1, 1>>, <<2, 1>>, <<1, 2>>, <<-1, 1>>}
 ScalesSmall == {NoneR, <<0, 1>>, <<2, 1>>, <<-1, 2>>}
 TargetsAll == {<<1, 1>>, <<2, 1>>, <<3, 1>>, <<1, 2>>, <<-1, 1>>}
+TargetsSeq == {<<2, 1>>, <<1, 2>>}
 
 Init == /\ \E dim \in 1..3, p \in Patterns, sc \in GScales : \E errs \in ErrSeqs(dim) :
              g = [cols |-> Cols(p, dim + Len(errs)), dim |-> dim, errs |-> errs, scale |-> sc]
